@@ -8,6 +8,7 @@ run; `Model.Hashmap` mirrors hashmap.py / utils.py / parse.py.
 import TonVerif.Proofs.Hashmap
 import TonVerif.Proofs.SrcHashmap
 import TonVerif.Proofs.SrcHashmapSer
+import TonVerif.Proofs.SrcHashmapGlue
 
 namespace TonVerif.Properties.C10
 open TonVerif TonVerif.Model TonVerif.Model.Hashmap TonVerif.Spec.Hashmap TonVerif.Proofs.Hashmap
@@ -463,5 +464,31 @@ example : (serialize_dict (serCb exSerC10) 6 [(2, false), (1, false)] 2).map (·
   | some b => rw [h] at this; simpa using this
 
 end SrcSerialiser
+
+/-! ### `parse_hashmap_aug`'s int-key conversion and `Slice.load_hashmap_aug`, from the source -/
+section SrcAugApi
+open TonVerif.Generated TonVerif.Proofs.SrcHashmapGlue
+
+/-- `parse_hashmap_aug(cell.begin_parse(), n, x, y)` as regenerated from parse.py — recursion AND the final `{int(i, 2): j …}`
+conversion (ValueError on the empty key of a 0-bit dictionary) — and `Slice.load_hashmap_aug` as regenerated from slice.py ARE the hand
+model's `parseHashmapAug` (`outAug`: raise = none, None for a non-ordinary root = some none), for every decoder pair, every fuel ≥ 2n+2. -/
+theorem c10_src_parse_hashmap_aug {X Y : Type} (D : AugDec X Y) (fuel : Nat) (c : Cell) (n : Nat) (hf : 2 * n + 2 ≤ fuel) :
+    (parse_hashmap_aug (xdOf D) (ydOf D) fuel (Py.beginParse c) (n : Int)).map (·.1) = outAug (parseHashmapAug D c n) ∧
+    (HashmapGlue.load_hashmap_aug (xdOf D) (ydOf D) fuel (Py.beginParse c) (n : Int)).map (·.1) = outAug (parseHashmapAug D c n) :=
+  ⟨parse_hashmap_aug_eq D fuel c n hf, load_hashmap_aug_eq D fuel c n hf⟩
+
+/-- hence `c10_parse_any_aug_api` (first part) holds of the regenerated entry point: every spec-valid `HashmapAug n X Y` with an
+ordinary root is decoded to (int-keyed dict of the leaves, extras) -/
+theorem c10_src_parse_any_aug_api {X Y : Type} {D : AugDec X Y} {p : Bool} {n : Nat} {bits refs} {kv : List (Bits × X)} {ex : List Y}
+    (hn : 0 < n) (h : ValidAug D p n (.mk (-1) bits refs) kv ex) (fuel : Nat) (hf : 2 * n + 2 ≤ fuel) :
+    (parse_hashmap_aug (xdOf D) (ydOf D) fuel (Py.beginParse (.mk (-1) bits refs)) (n : Int)).map (·.1) = some (some (intKeys kv, ex)) := by
+  rw [(c10_src_parse_hashmap_aug D fuel _ n hf).1]
+  have h1 := parseHashmapAug_valid hn h
+  cases hq : parseHashmapAug D (.mk (-1) bits refs) n with
+  | err => rw [hq] at h1; exact h1.elim
+  | none => rw [hq] at h1; exact h1.elim
+  | dict r => rw [hq] at h1; simp only at h1; subst h1; rfl
+
+end SrcAugApi
 
 end TonVerif.Properties.C10
